@@ -254,10 +254,10 @@ Proof. repeat split; vm_compute; reflexivity. Qed.
    (any chunk sizes, any origin/relativize) and every parsing context (origin, relativize,
    relativize_to): dns.rdata.from_text of the printed text returns the values, names being mapped by
    the name-level effect `name_path` of the two relativization choices (no text involved). *)
-Theorem text_roundtrip_schema : forall sty c fs vs text vs' rest fw tw,
+Theorem text_roundtrip_schema : forall sty c fs chk vs text vs' rest fw tw,
   schema_wf fs -> Forall2 val_ok fs vs -> style_ok sty -> (rest = [] \/ exists r, rest = 10 :: r) ->
-  record_to_text sty fs vs = Ok text -> expects sty c fs vs = Ok vs' ->
-  record_from_text_gen fw tw c fs (text ++ rest) = Ok vs'.
+  record_to_text sty fs vs = Ok text -> expects sty c fs vs = Ok vs' -> chk vs' = Ok tt ->
+  record_from_text_gen fw tw c fs chk (text ++ rest) = Ok vs'.
 Proof. exact record_roundtrip. Qed.
 Print Assumptions text_roundtrip_schema.
 
@@ -273,11 +273,11 @@ Qed.
 Print Assumptions schema_table_wf.
 
 (* names printed and parsed without any origin: exactly the same values *)
-Theorem text_roundtrip_asis : forall sty c fs vs text rest fw tw,
+Theorem text_roundtrip_asis : forall sty c fs chk vs text rest fw tw,
   schema_wf fs -> Forall2 val_ok fs vs -> style_ok sty -> (rest = [] \/ exists r, rest = 10 :: r) ->
   s_origin sty = None -> p_origin c = None -> p_relativize_to c = None ->
-  record_to_text sty fs vs = Ok text ->
-  record_from_text_gen fw tw c fs (text ++ rest) = Ok vs.
+  record_to_text sty fs vs = Ok text -> chk vs = Ok tt ->
+  record_from_text_gen fw tw c fs chk (text ++ rest) = Ok vs.
 Proof. exact record_roundtrip_asis. Qed.
 Print Assumptions text_roundtrip_asis.
 
@@ -337,18 +337,38 @@ Proof.
 Qed.
 
 Example text_roundtrip_schema_computed :
-  (do text <- record_to_text ex_sty ex_soa_fs ex_soa; record_from_text ex_ctx ex_soa_fs (text ++ [10]))
+  (do text <- record_to_text ex_sty ex_soa_fs ex_soa; record_from_text ex_ctx ex_soa_fs no_check (text ++ [10]))
   = Ok (VName [[64; 46; 0]] :: tl ex_soa)
   /\ expects ex_sty ex_ctx ex_soa_fs ex_soa = Ok (VName [[64; 46; 0]] :: tl ex_soa)
-  /\ (do text <- record_to_text ex_sty ex_naptr_fs ex_naptr; record_from_text ex_ctx ex_naptr_fs text)
+  /\ (do text <- record_to_text ex_sty ex_naptr_fs ex_naptr; record_from_text ex_ctx ex_naptr_fs no_check text)
     = Ok [VInt 65535; VInt 0; VBytes [34; 92; 200]; VBytes []; VBytes [59; 40]; VName [[255]]]
   /\ match schema_of 46 with
-     | Some fs => (do text <- record_to_text ex_sty fs ex_rrsig; record_from_text ex_ctx fs text)
+     | Some fs => (do text <- record_to_text ex_sty fs ex_rrsig; record_from_text ex_ctx fs (schema_chk 46) text)
                   = Ok [VInt 65280; VInt 13; VInt 255; VInt 2147483647; VInt 4294967295; VInt 951782400; VInt 65535;
                         VName [[115]]; VBytes [0; 255; 62; 63]]
      | None => False
      end.
 Proof. split; [vm_compute; reflexivity|]. split; [vm_compute; reflexivity|]. split; vm_compute; reflexivity. Qed.
+
+(* the checks relating several fields (chk): DS / CDS / DLV digest length by digest type, ZONEMD *)
+Example record_check_examples :
+  match schema_of 43, schema_of 59, schema_of 63 with
+  | Some fs, Some cfs, Some zfs =>
+      let vs := [VInt 60485; VInt 5; VInt 1; VBytes (repeat 171 20)] in
+      let del := [VInt 0; VInt 0; VInt 0; VBytes [0]] in
+      let z := [VInt 2018031900; VInt 1; VInt 1; VBytes (repeat 7 48)] in
+      schema_chk 43 vs = Ok tt
+      /\ (do text <- record_to_text ex_sty fs vs; record_from_text ex_ctx fs (schema_chk 43) text) = Ok vs
+      (* one octet less: it prints, but the constructor's length check rejects it *)
+      /\ (do text <- record_to_text ex_sty fs [VInt 60485; VInt 5; VInt 1; VBytes (repeat 171 19)];
+          record_from_text ex_ctx fs (schema_chk 43) text) = Lib eSyntax
+      (* the CDS "delete" form is a CDS but not a DS *)
+      /\ (do text <- record_to_text ex_sty cfs del; record_from_text ex_ctx cfs (schema_chk 59) text) = Ok del
+      /\ (do text <- record_to_text ex_sty fs del; record_from_text ex_ctx fs (schema_chk 43) text) = Lib eSyntax
+      /\ (do text <- record_to_text ex_sty zfs z; record_from_text ex_ctx zfs (schema_chk 63) text) = Ok z
+  | _, _, _ => False
+  end.
+Proof. vm_compute. repeat split; reflexivity. Qed.
 
 (* ------------------------------------------------------------------ accepted from text => encodable *)
 
@@ -370,7 +390,7 @@ Print Assumptions name_from_text_valid.
    from_text rejects (SSHFP 1 1 with an empty fingerprint) *)
 Theorem empty_rest_field_refuted :
   exists fs vs text, schema_of 44 = Some fs /\ record_to_text (mkStyle None false 128 [32] 32 [32] false) fs vs = Ok text /\
-    record_from_text (mkPctx None true None) fs (text ++ [10]) <> Ok vs.
+    record_from_text (mkPctx None true None) fs (schema_chk 44) (text ++ [10]) <> Ok vs.
 Proof.
   exists [u8; u8; FHexRest], [VInt 1; VInt 1; VBytes []], [49; 32; 49; 32].
   split; [reflexivity|]. split; [reflexivity|]. vm_compute. discriminate.
